@@ -103,6 +103,9 @@ func GenIter(r *simrt.Rand, excl IterExclude) *IterProg {
 	}
 	newProd := func() int {
 		pr := IterProd{Tag: len(p.Prods) + 1, N: r.Intn(6), Fail: -1, Sub: -1}
+		if r.Chance(1, 12) {
+			pr.N = []int{7, 8, 9, 15, 16, 17, 31, 32, 33}[r.Intn(9)]
+		}
 		if len(p.Prods) > 0 && r.Chance(1, 3) {
 			pr.Kind = pickFrom(iterWrappers, "prod:")
 			pr.Sub = r.Intn(len(p.Prods))
